@@ -122,6 +122,105 @@ func TestVerifC20(t *testing.T) {
 			}
 		}
 	}
+	// the lag checker (background loop of every process) on odd master records: a lagging offline local replica
+	for _, master := range []string{"h1", "h2", "", "h9"} {
+		for _, lag := range []int64{10, 100000} {
+			for _, offline := range []bool{false, true} {
+				in := map[string]any{"lagcheck": map[string]any{"master": master, "lag_s": lag, "offline": offline}}
+				vk.Running("lagcheck", in)
+				var pan string
+				synctest.Test(t, func(t *testing.T) {
+					dir, _ := os.MkdirTemp("", "c20lag")
+					defer os.RemoveAll(dir)
+					w := vk.NewWorld()
+					vInstall(w)
+					d := newMemDCS(w, "h2")
+					d.silent = true
+					for _, h := range []string{"h1", "h2"} {
+						n := &vk.Node{Host: h, UUID: hostUUID(h), Up: true, Executed: hostUUID("h1") + ":1-100"}
+						if h == "h2" {
+							l := lag
+							n.RO, n.SuperRO, n.Offline, n.Lag = true, true, offline, &l
+							n.Chan = &vk.Chan{Source: "h1", IO: true, SQL: true}
+							n.Retrieved = n.Executed
+						}
+						w.AddNode(n)
+						d.rawSet(dcs.JoinPath(pathHANodes, h), mysql.NodeConfiguration{})
+					}
+					if master != "" {
+						d.rawSet(pathMasterNode, master)
+					}
+					va := newVApp(w, d, vAppOpts{Hostname: "h2", Dir: dir})
+					defer va.close()
+					func() {
+						defer func() {
+							if r := recover(); r != nil {
+								pan = fmt.Sprint(r)
+							}
+						}()
+						_ = va.app.lagResetupper.CheckNeedResetup(va.app.cluster)
+					}()
+				})
+				m.Evaluations++
+				m.Count("lag_checker")
+				if pan != "" {
+					m.Violations = append(m.Violations, map[string]any{"clause": "no background check terminates the process", "input": in,
+						"detail": "panic in the lag checker (resetup.(*LagResetupper).CheckNeedResetup): " + pan, "signature": map[string]any{"site": "resetup.(*LagResetupper).CheckNeedResetup"}})
+				}
+			}
+		}
+	}
+	// the cached server version of a node handle: a first contact that fails must not leave a made-up version behind (the
+	// version selects the statement dialect: SHOW SLAVE STATUS before 8.0.22)
+	for _, ver := range [][3]int{{5, 7, 44}, {8, 0, 21}, {8, 0, 32}} {
+		for _, action := range []string{"err:1040", "drop"} {
+			in := map[string]any{"version_cache": map[string]any{"version": ver, "first_contact": action}}
+			vk.Running("version_cache", in)
+			var got string
+			var stErr error
+			synctest.Test(t, func(t *testing.T) {
+				dir, _ := os.MkdirTemp("", "c20ver")
+				defer os.RemoveAll(dir)
+				w := vk.NewWorld()
+				vInstall(w)
+				d := newMemDCS(w, "h1")
+				d.silent = true
+				for _, h := range []string{"h1", "h2"} {
+					n := &vk.Node{Host: h, UUID: hostUUID(h), Up: true, Executed: hostUUID("h1") + ":1-100", Version: ver}
+					if h == "h2" {
+						n.RO, n.SuperRO = true, true
+						n.Chan = &vk.Chan{Source: "h1", IO: true, SQL: true}
+						n.Retrieved = n.Executed
+					}
+					w.AddNode(n)
+					d.rawSet(dcs.JoinPath(pathHANodes, h), mysql.NodeConfiguration{})
+				}
+				va := newVApp(w, d, vAppOpts{Hostname: "h1", Dir: dir})
+				defer va.close()
+				w.Mu.Lock()
+				w.Faults = []*vk.Fault{{Host: "h2", Kind: "SVersion", Nth: 0, Action: action}}
+				w.Mu.Unlock()
+				node := va.app.cluster.Get("h2")
+				_, _ = node.GetReplicaStatus() // first contact: the version query fails
+				w.Mu.Lock()
+				w.Faults = nil
+				w.Mu.Unlock()
+				for pass := 0; pass < 3; pass++ {
+					_, stErr = node.GetReplicaStatus()
+				}
+				if v, err := node.GetVersion(); err == nil && v != nil {
+					got = fmt.Sprintf("%d.%d.%d", v.MajorVersion, v.MinorVersion, v.PatchVersion)
+				}
+			})
+			m.Evaluations++
+			m.Count("version_cache")
+			want := fmt.Sprintf("%d.%d.%d", ver[0], ver[1], ver[2])
+			if got != want || stErr != nil {
+				m.Violations = append(m.Violations, map[string]any{"clause": "no iteration corrupts the process' own state (cached server version of a node handle)", "input": in,
+					"detail": fmt.Sprintf("after a failed first contact the handle caches version %q for a %s server; replica status on the healthy server: %v", got, want, stErr)})
+			}
+		}
+	}
 	// the repair pass over cascade topologies with cycles, self references and dangling sources (its K2 is C10's)
 	{
 		nrep := 150
